@@ -160,6 +160,28 @@ def run(F, R, tier):
         t = tail(hc[0]["body"])
         R.check(t.get("k") == "MethodCall" and t["m"] == "is_some" and strip(t["recv"]).get("m") == "find", rule, norm(hc[0]["path"]),
                 "fallback answers find(..).is_some()", where=hc[0]["span"])
+    # the searcher comparators are pure delegations: one call on the value's bytes, no shortcut of their own
+    deleg = [(r"^<searcher::MemmemSearcher as ast::index_expr::Compare<U>>::compare$", "find"),
+             (r"Compare<U> for sliceslice::MemchrSearcher\}::compare$", "search_in"),
+             (r"compile_with_compiler::ArraySearcher<N> as ast::index_expr::Compare<U>>::compare$", "search_in"),
+             (r"compile_with_compiler::BoxSearcher as ast::index_expr::Compare<U>>::compare$", "search_in")]
+    for rx, meth in deleg:
+        hs = E.hirs(rx)
+        if len(hs) != 1:
+            R.cannot("R10-deleg", rx, "anchor not found (%d)" % len(hs))
+            continue
+        b = hs[0]["body"]
+        fn = norm(hs[0]["path"])
+        rets = list(exprs(b, "Ret"))
+        ifs = list(exprs(b, "If"))
+        ms = [m for m in exprs(b, "Match") if not norm(m["scrut"].get("ty", "")).endswith("types::LhsValue")]
+        calls_ = [c for c in exprs(b, "MethodCall") if c["m"] == meth]
+        t = tail(b)
+        direct = (t.get("k") == "MethodCall" and (t["m"] == meth or (t["m"] == "is_some" and strip(t["recv"]).get("m") == meth)))
+        R.check(not rets and not ifs and not ms and len(calls_) == 1 and direct, "R10-deleg", fn,
+                "answers exactly what %s() says (no extra shortcut or early return)" % meth,
+                "%d returns, %d ifs, %d matches, %d %s calls: an added fast path can disagree with the search on boundary lengths" % (
+                    len(rets), len(ifs), len(ms), len(calls_), meth), hs[0]["span"])
     common.rule_default(E, R, only={"Contains"})
     R.not_decided += ["correctness of sliceslice / memchr (dependencies)", "the wasm32 path (not compiled on the host target)",
                       "equality of answers between the code paths and across recompilations (random anchor)"]
